@@ -16,12 +16,12 @@ def obligations(tier):
     obs = []
     g4 = S.G4()
     obs.append(S.SOb('C09.score[G4,n=2,tags=2,nbest=1]', g4, 2, pruning=2, penalty='sym'))
-    obs.append(S.SOb('C09.score[G4,n=2,tags=2,nbest=%d]' % (2 if q else 3), g4, 2, pruning=2, penalty='sym', nbest=(2 if q else 3)))
+    obs.append(S.SOb('C09.score[G4,n=2,tags=2,nbest=%d]' % (2 if q else 3), g4, 2, ([(1, 0)] if q else ()), pruning=2, penalty='sym', nbest=(2 if q else 3)))
     for g in (S.G1(True), S.G1(False)):
         obs.append(S.SOb('C09.score[%s,n=3,tags=1]' % g['name'], g, 3, S.one_tag(3, 3), pruning=1, penalty='0'))
     obs.append(S.SOb('C09.score[G5r,n=2,tags=2,nbest=2]', S.G5(False), 2, pruning=2, penalty='0', nbest=2))
     obs.append(S.SOb('C09.score[G3c,n=2,tags=1,penalty=sym]', S.G3(True), 2, S.one_tag(2, 2), pruning=1, penalty='sym'))
-    obs.append(S.SOb('C09.score[G6,n=1,tags=4,penalty=sym,nbest=3]', S.G6(), 1, pruning=4, penalty='sym', nbest=3))
+    obs.append(S.SOb('C09.score[G6,n=1,tags=4,penalty=sym,nbest=3]', S.G6(), 1, ([(0, 3)] if q else ()), pruning=4, penalty='sym', nbest=3))
     g = S.real_grammar('ja')
     obs.append(S.SOb('C09.score[G_ja,n=3,tags=1:[0,1,2]]', g, 3, S.one_tag(3, g['T'], [0, 1, 2]), pruning=1, penalty='sym'))
     g = S.real_grammar('en')
